@@ -25,7 +25,7 @@ from ..objectmodel.builder import (
 from ..util import hasha
 
 
-__compiled_grammar_cache: dict[tuple[Any, ...], g.Grammar] = {}
+__compiled_grammar_cache: dict[tuple[Any, ...], tuple[g.Grammar, Any]] = {}
 
 
 def boot_grammar() -> g.Grammar:
@@ -87,12 +87,14 @@ def compile(
     # NOTE: str() of a Text is not its content (str(Buffer(...)) == 'Buffer()'): only grammars given as str are cached
     cacheable = isinstance(grammar, str)
     if cacheable and key in cache:
-        model = cache[key]
+        model, _ = cache[key]
     else:
         gen = TatSuParserGenerator(name, **settings)
         model = gen.parse(grammar, **settings)
         if cacheable:
-            cache[key] = model
+            # NOTE: the key holds id()s: the entry must keep those objects alive,
+            #   or a later argument could be given the same id and this model
+            cache[key] = (model, (semantics, builderconfig, typedefs, constructors))
     if semantics is not None:
         model.semantics = semantics
     elif asmodel:
